@@ -8,7 +8,7 @@
 (*   WithConnectorPlanner.Process     (planner_with_connector.go) field *WithCache -> UseCache               *)
 (*     (FingerprintFilterPlanner.FingerprintSelectWithCache = planner.fpCache, built with the FIRST ctx)     *)
 (*   MainFinalizerPlanner.Process     (planner_main_finalizer.go) field Alias      -> set once, idempotent   *)
-(*   ByWithoutPlanner.processTSTable  (planner_by_without.go)    field *LabelsCache -> ProcBW                *)
+(*   ByWithoutPlanner.Process/processTSTable (planner_by_without.go) field *LabelsCache, cleared on entry     *)
 (*   LineFormatPlanner.ProcessTpl     (planner_line_format.go)   fields formatStr, args -> ProcLFmt          *)
 (*     (not reachable from logql_transpiler_v2.Plan: a line_format always moves to the in-process stages)    *)
 (*   AttrConditionPlanner.Process     (traceql attr_condition.go) fields sqlConds, where, AggregatedAttr     *)
@@ -138,9 +138,11 @@ ProcLogQL(q, f, k) ==
                [] rewrite -> LikeSet(p.runes, p.fold)
                [] OTHER -> MatchSet(f.val)
       lines == IF q.kind = "lf" /\ q.op \in {"!=", "!~"} THEN Lines \ pos ELSE pos
-      \* ByWithoutPlanner.processTSTable: with *LabelsCache set the labels sub-select reads from the cached WITH,
-      \* whose alias is the one of the WITH being defined
-      valid == ~(q.kind = "bw" /\ f.lcache = 1)
+      \* ByWithoutPlanner.Process clears *LabelsCache when an execution enters it (the cache chains the label
+      \* sub-selects of ONE execution); processTSTable: with *LabelsCache set the labels sub-select reads from the
+      \* cached WITH - were that the WITH of the previous execution, its alias would be the one being defined
+      lc0 == IF q.kind = "bw" THEN 0 ELSE f.lcache
+      valid == ~(q.kind = "bw" /\ lc0 = 1)
       lcache2 == IF q.kind = "bw" /\ Writes("ByWithoutPlanner.LabelsCache") THEN 1 ELSE f.lcache
       \* LineFormatPlanner.ProcessTpl appends the template to formatStr on every call
       fmt2 == IF q.kind = "lfmt" /\ Writes("LineFormatPlanner.formatStr") THEN f.fmt + 1 ELSE f.fmt
